@@ -327,6 +327,10 @@ pub fn def(ctx: &Ctx) -> PropDef {
             check_hist,
         ));
     }
+    if ctx.tier == crate::engine::Tier::Thorough {
+        subs.push(crate::props::fuzzsub::FuzzSub::boxed("fz_jitter", "C16", 150000, false));
+        subs.push(crate::props::fuzzsub::FuzzSub::boxed("fz_jitter", "C16", 150000, true));
+    }
     PropDef {
         id: "C16",
         rule: "cases = timer delta program (incl. hostile deltas) x rounds 1..=255 x (a) twin relations after a generated prefix: R1 u32;u32 == (low, high) of u64 with zero reads in the second call and equal totals; R2 the call after a pending half (next_u64 or fill(n>=5)) returns what it returns after next_u64 in place of the u32, reading >= rounds; R3 the first next_u32 of a clone taken while a half is pending is the low half of a fresh collection (>= rounds reads) and the original still serves its own half; (b) R4: histories of next_u32/next_u64/fill_bytes/clone/switch over up to 6 instances sharing one timer, with model-free bookkeeping: a call that needs no collection reads the timer zero times, every needed collection reads it >= rounds times. fill(n) follows the composition rule (a tail of 1..4 bytes is a next_u32). Non-trivial = every relation case; a history with a pending half followed by another op or a clone taken while a half is pending; distinct by hash of the case.".into(),
